@@ -4,6 +4,7 @@ import (
 	"fmt"
 	"math/rand"
 	"reflect"
+	"sort"
 	"strings"
 	"time"
 
@@ -379,11 +380,17 @@ func LegacyFailures(v reflect.Value, out *[]*failure122.Failure, seen map[uintpt
 			LegacyFailures(v.Index(i), out, seen)
 		}
 	case reflect.Map:
-		it := v.MapRange()
-		for it.Next() {
-			LegacyFailures(it.Value(), out, seen)
+		// in key order: callers walk two structurally equal messages side by side and pair the results up
+		for _, k := range sortedMapKeys(v) {
+			LegacyFailures(v.MapIndex(k), out, seen)
 		}
 	}
+}
+
+func sortedMapKeys(v reflect.Value) []reflect.Value {
+	keys := v.MapKeys()
+	sort.Slice(keys, func(i, j int) bool { return fmt.Sprint(keys[i].Interface()) < fmt.Sprint(keys[j].Interface()) })
+	return keys
 }
 
 // LegacyStrings returns pointers (via setter closures) to every string field reachable that is not
